@@ -275,9 +275,9 @@ def localTextViol (s : Str) (n : Node) : List Viol :=
     bad (n.pos.1 == 0 || (match s[n.pos.1 - 1]? with
         | some c => isBreakChar c ||
             -- a word may follow the '-' of `<<-`, `<&-`, `>&-` directly
-            -- (blanks may separate the operator from its '-': `>& -l` is `>&`, `-`, `l` for bash too)
+            -- (blanks and line continuations may separate the operator from its '-': `>& -l` is `>&`, `-`, `l` for bash too)
             (c == '-' && n.pos.1 ≥ 2 &&
-              (let before := ((s.take (n.pos.1 - 1)).reverse.dropWhile shellblank)
+              (let before := ((stripContinuations (s.take (n.pos.1 - 1))).reverse.dropWhile shellblank)
                before.head? == some '<' || before.head? == some '&'))
         | none => false))
       "word-starts-late"
